@@ -26,10 +26,10 @@ ASSUMPTIONS = ["Pygments decides what is a comment: an insertion that the lexer 
                "not a comment, the case is counted as invalid and not judged",
                "if the relation fails and the code-token streams of X and X' differ, the lexer re-tokenised code around the "
                "insertion: counted as lexer_retokenised and reported, not judged (precondition 'between the tokens' fails)"]
-BOUNDS = {"quick": dict(n=28, sets_per_file=10, canon=16, single_points_files=0),
-          "thorough": dict(n=112, sets_per_file=300, canon=600, single_points_files=20)}
+BOUNDS = {"quick": dict(n=28, sets_per_file=10, canon=16, single_points_files=0, single_points_cap=0),
+          "thorough": dict(n=112, sets_per_file=100, canon=300, single_points_files=4, single_points_cap=250)}
 MINIMUM = {"quick": {"monitor.relation_checked": 1200, "cases.insertion_inside_function": 600, "monitor.removal_relation_checked": 100},
-           "thorough": {"monitor.relation_checked": 40000, "cases.insertion_inside_function": 20000, "monitor.removal_relation_checked": 500}}
+           "thorough": {"monitor.relation_checked": 25000, "cases.insertion_inside_function": 12000, "monitor.removal_relation_checked": 300}}
 WORDS = ["note", "todo: later", "x = 1; {", "if (a) { b(); }", "def f(): pass", "function g() {", "}", "see nocl", "((", "\"", "'",
          # the marker word later in the comment, also right after something that looks like another comment opener
          "noqa: C901  # nocl was dropped", "TODO split; nocl is no option", "tracked in #nocl-42", "see // nocl", "was /* nocl", "x ;nocl",
@@ -334,7 +334,10 @@ def run(shard, ctx):
                 insertion_case(ctx, lang, info, ins, name, "corpus" if not name.startswith("canonical") else "canonical")
         removal_case(ctx, lang, text, name)
         if idx < shard["single_points_files"]:
-            for after in info.safe_line_ends:
+            points = info.safe_line_ends
+            if len(points) > shard["single_points_cap"]:
+                points = sorted(rng.sample(points, shard["single_points_cap"]))
+            for after in points:
                 for ins in ([(after, "lines", comment_lines(lang, rng, 0))], [(after, "trail", trailing_comment(lang, rng))],
                             [(after, "lines", [""])]):
                     ctx.count("cases.single_point")
